@@ -146,10 +146,13 @@ def scribble(obj: t.Any, depth: int = 0) -> None:
             scribble(v, depth + 1)
 
 
-def codec_event(msg: t.Any) -> t.Dict[str, t.Any]:
+def codec_event(msg: t.Any, opts: t.Any = None, enc: str = "") -> t.Dict[str, t.Any]:
     """value -> pack -> unpack -> pack, recorded for CodecTrace."""
     e: t.Dict[str, t.Any] = {"m": proj.to_abstract(msg), "packres": "ok", "packed": [], "decres": "ok", "dec": {"op": "none"},
                                "rest": [], "repacked": []}
+    if enc:
+        e["enc"] = enc
+        return _codec_event_with(msg, e, opts)
     try:
         packed = msg.pack(options())
     except Exception as ex:  # noqa: BLE001
@@ -210,6 +213,136 @@ def many_messages(rnd: random.Random) -> t.List[t.Any]:
     return out
 
 
+def _codec_event_with(msg: t.Any, e: t.Dict[str, t.Any], opts: t.Any) -> t.Dict[str, t.Any]:
+    import sansldap._messages as M
+    from sansldap.asn1 import ASN1Reader
+
+    try:
+        packed = msg.pack(opts)
+    except Exception as ex:  # noqa: BLE001
+        e["packres"] = C.exc_kind(ex)
+        return e
+    e["packed"] = list(packed)
+    try:
+        r = ASN1Reader(packed)
+        dec = M.unpack_ldap_message(r, opts)
+        e["dec"] = proj.to_abstract(dec)
+        e["rest"] = list(r.get_remaining_data())
+        e["repacked"] = list(dec.pack(opts))
+    except Exception as ex:  # noqa: BLE001
+        e["decres"] = C.exc_kind(ex)
+    return e
+
+
+def altenc_events(rnd: random.Random, n: int) -> t.List[t.Dict[str, t.Any]]:
+    """Round trips under PackingOptions(string_encoding=...) other than UTF-8 (the library supports it; sessions do not use
+    it): every message kind with text that the encoding can represent."""
+    import sansldap._messages as M
+    from sansldap._authentication import AuthenticationOptions
+    from sansldap._controls import ControlOptions
+    from sansldap._filter import FilterOptions
+
+    out = []
+    for enc, alphabet in (("latin-1", "a\u00e9\u00ff ,=x"), ("utf-16-le", "a\u00e9\u20ac\U0001f600 ,="), ("cp1252", "a\u20ac\u00e9 =")):
+        opts = M.PackingOptions(string_encoding=enc, authentication=AuthenticationOptions(string_encoding=enc), control=ControlOptions(string_encoding=enc),
+                                filter=FilterOptions(string_encoding=enc))
+        for _ in range(n):
+            m = msggen.r_message(rnd)
+            m = _retext(m, rnd, alphabet)
+            if m is not None:
+                out.append(codec_event(m, opts=opts, enc=enc))
+    return out
+
+
+def _retext(obj: t.Any, rnd: random.Random, alphabet: str, depth: int = 0) -> t.Any:
+    """The same value with every str replaced by text over `alphabet` (so that the encoding can represent it)."""
+    import dataclasses
+    import enum
+
+    if isinstance(obj, enum.Enum) or obj is None or isinstance(obj, (bytes, bool, int)):
+        return obj
+    if isinstance(obj, str):
+        if "." in obj and obj.replace(".", "").isdigit():
+            return obj       # an OID
+        return "".join(rnd.choice(alphabet) for _ in range(min(len(obj), 40) or rnd.randrange(0, 3)))
+    if isinstance(obj, list):
+        return [_retext(x, rnd, alphabet, depth + 1) for x in obj]
+    if dataclasses.is_dataclass(obj) and depth < 12:
+        try:
+            return dataclasses.replace(obj, **{f.name: _retext(getattr(obj, f.name), rnd, alphabet, depth + 1) for f in dataclasses.fields(obj) if f.init})
+        except Exception:  # noqa: BLE001
+            return None
+    return obj
+
+
+def walk_tlv(b: bytes, pos: int, end: int, depth: int = 0) -> t.Optional[str]:
+    """Independent check that b[pos:end] is exactly tiled by definite-length TLVs, recursively for constructed ones."""
+    while pos < end:
+        first = b[pos]
+        p = pos + 1
+        if first & 0x1F == 0x1F:
+            while p < end and b[p] & 0x80:
+                p += 1
+            p += 1
+        if p >= end:
+            return f"header at {pos} runs past its parent"
+        l0 = b[p]
+        p += 1
+        if l0 < 0x80:
+            ln = l0
+        elif l0 == 0x80:
+            return f"indefinite length at {pos}"
+        else:
+            k = l0 & 0x7F
+            if p + k > end:
+                return f"length octets at {pos} run past the parent"
+            ln = int.from_bytes(b[p:p + k], "big")
+            p += k
+        if p + ln > end:
+            return f"element at {pos} (content {ln} octets) overruns its parent by {p + ln - end}"
+        if first & 0x20 and depth < 12:
+            inner = walk_tlv(b, p, p + ln, depth + 1)
+            if inner:
+                return inner
+        pos = p + ln
+    return None
+
+
+def huge_checks(rep: C.Report) -> None:
+    """Elements with 2^24 and more content octets (four length octets).  Their encodings are beyond what TLC can take as a
+    trace event, so they are judged here: the octets must be exactly tiled by definite-length TLVs at every level (an
+    independent walker, C03) and decode back to the same value (C01)."""
+    import sansldap._messages as M
+    from sansldap.asn1 import ASN1Reader
+
+    big = bytes(2**24)
+    cases = [("one value of 2^24 octets", M.SearchResultEntry(3, [], "cn=x", [M.PartialAttribute("blob", [big])])),
+             ("one value of 2^24 + 5 octets", M.ExtendedRequest(4, [], "1.2.3", big + b"12345")),
+             ("17 values of 2^20 octets", M.SearchResultEntry(5, [], "cn=y", [M.PartialAttribute("blob", [bytes(2**20 - j) for j in range(17)])])),
+             ("one value of 2^24 - 1 octets", M.BindResponse(6, [], M.LDAPResult(M.LDAPResultCode(0), "", "", None), big[:-1]))]
+    opts = M.PackingOptions()
+    for name, msg in cases:
+        rep.case(("huge", name))
+        rep.traces += 1
+        try:
+            packed = msg.pack(opts)
+        except Exception as ex:  # noqa: BLE001
+            rep.violation("PackRaises/huge", f"{name}: pack raised {type(ex).__name__}: {ex}", {"case": name}, prop="C01")
+            continue
+        why = walk_tlv(packed, 0, len(packed))
+        if why:
+            rep.violation("WellFormedBer/huge", f"{name}: the {len(packed)} packed octets are not well-formed definite-length BER: {why}", {"case": name, "head": packed[:24].hex()}, prop="C03")
+        try:
+            r = ASN1Reader(packed)
+            dec = M.unpack_ldap_message(r, opts)
+            rest = r.get_remaining_data()
+            if dec != msg or proj.to_abstract(dec) != proj.to_abstract(msg) or rest:
+                rep.violation("Equal/huge", f"{name}: decode(encode(m)) differs from m ({len(rest)} octets left over)", {"case": name}, prop="C01")
+        except Exception as ex:  # noqa: BLE001
+            rep.violation("Decodes/huge", f"{name}: the library cannot decode its own {len(packed)} octets: {type(ex).__name__}: {ex}", {"case": name}, prop="C01")
+    rep.add_part("elements of 2^24 and more octets (judged outside TLC: independent TLV walker + round trip)", cases=len(cases))
+
+
 def trace_part(rep: C.Report, wd: str, tier: str, rnd: random.Random, extra_msgs: t.Sequence[t.Any] = ()) -> None:
     n = 2500 if tier == "quick" else 40000
     msgs = list(extra_msgs) + other_messages(rnd) + many_messages(rnd) + [msggen.r_message(rnd) for _ in range(n)]
@@ -220,6 +353,8 @@ def trace_part(rep: C.Report, wd: str, tier: str, rnd: random.Random, extra_msgs
         if rnd.random() < 0.06:
             failing_pack(rnd)
         events.append(codec_event(m))
+    events += altenc_events(rnd, 60 if tier == "quick" else 1500)
+    huge_checks(rep)
     for e in events:
         rep.case((e["m"]["op"], str(e["packed"])[:400]))
     verdicts, gen, dist = C.validate_traces("CodecTrace", "CodecTrace.cfg", events, wd, tag="codec", timeout=1500, xss="512m")
